@@ -210,6 +210,25 @@ CHECKS['C12'] = dict(
          'its generators. F13 (IndexError on an empty member item) was found by this correspondence and repaired in /repo.',
     design='5 (C12), 3.2 (H-frontend)')
 
+CHECKS['C11'] = dict(
+    engine='h-frontend',
+    technique='Lean 4 proof (marks of every output of the expansion pipeline; an effective node is a fixed point of the '
+              'whole pipeline in any world; normalisation idempotent) over a transcription of config_parse_v3._parse and '
+              'config_parse_v2 + tree-for-tree comparison of the real printed effective document with the model, both '
+              'dialects + the property\'s own two-run oracle on the implementation',
+    text='Props/C11.lean: effective_marks (no $field-type-aliases / $log-level-aliases, normalised trace type without '
+         'null properties, no null environment in whatever expand3 returns), effective_fixed_point (such a node without '
+         '$include at includable objects is returned unchanged, any world, any fuel >= 4), normalisation_idempotent, '
+         'null_reset_removed. Partial: absence of $include / alias names / $inherit inside the output is not proved; the '
+         'check evaluates exactly those hypotheses on every real effective document. Every run: generated valid documents '
+         'of both dialects re-expressed with multi-level inclusions, alias and inheritance chains, null resets and all '
+         'spelling aliases; real effective_configuration_file output re-loaded and compared with expand3/expand2 '
+         '(ordered trees); on the implementation: the printed document is free of expansion features, is accepted again, '
+         'prints to the same text, and generates byte-identical files (date lines removed).',
+    note='Trusted: Lean kernel/standard axioms; PyYAML load/dump; the harness and its generators. uuid: auto excluded '
+         '(documented fresh UUID).',
+    design='5 (C11), 3.2 (H-frontend)')
+
 NOT_APPLICABLE = {
 }
 
